@@ -14,3 +14,11 @@ m = json.load(open('/verif/MANIFEST.json'))
 assert len(m['checks']) == 20 and not m['not_applicable'], 'claims changed'
 print('precommit ok')
 PY
+# every scripted mutant must apply to the current /repo (its old text occurs exactly once)
+python3 - <<'PY' || exit 1
+import sys; sys.path.insert(0, '/verif')
+from vx import mutants as M
+bad = [(k, n) for k, v in M.MUTANTS.items() for (n, f, o, w) in v if open('/repo/' + f).read().count(o) != 1]
+if bad:
+    print('scripted mutants that no longer apply:', bad); sys.exit(1)
+PY
